@@ -1,6 +1,6 @@
 SPECIFICATION SSpec
 CONSTANTS
-  Groups = {"wallet", "blockrelay", "messenger", "controller", "cache", "validators", "attester", "registrar", "bids", "restcfg", "exechead", "syncagg", "bestvotes", "bidstrategy", "dirk", "syncduty", "attinfo"}
+  Groups = {"wallet", "blockrelay", "messenger", "controller", "cache", "validators", "attester", "registrar", "bids", "restcfg", "exechead", "syncagg", "bestvotes", "bidstrategy", "dirk", "syncduty", "attinfo", "builderclients"}
   Pinned = FALSE
   InPlace = FALSE
   Reuse = FALSE
